@@ -92,7 +92,7 @@ def gen_history(rng, nops, uid0=0, write_only=False):
         elif r < 0.83:
             ops.append(dict(op="fail", b=b, ev=ev(), ev2=ev(), what=rng.choice(
                 ["create_existing", "create_existing", "delete_missing_bucket", "update_missing_bucket", "upsert_unbindable",
-                 "insert_unserializable"])))
+                 "insert_unserializable", "bulk_unserializable"])))
         elif r < 0.89 and not write_only:
             ops.append(dict(op="read", b=b, how=rng.choice(["get", "get1", "count", "byid"])))
         elif r < 0.93:
@@ -129,6 +129,10 @@ def storm(rng, kind):
         return ops
     ops.append(dict(op="create_bucket", b="b0"))
     ops.append(dict(op="bulk", b="b0", evs=[dict(ts=10**15 + i * 1000, dur=1000, data={"uid": n0 + i}) for i in range(250)]))
+    if rng.random() < 0.5:
+        # a refused batch just before: whatever it leaves behind in the store object must not disable the flush rules
+        ops.append(dict(op="fail", b="b0", what=rng.choice(["upsert_unbindable", "bulk_unserializable", "insert_unserializable"]),
+                        ev=dict(ts=10**15, dur=0, data={"uid": 3 * n0}), ev2=dict(ts=10**15, dur=0, data={"uid": 3 * n0 + 1})))
     for i in range(rng.randrange(70, 200)):
         def e(j=0):
             return dict(ts=10**15 + rng.randrange(0, 10**6) * 1000, dur=rng.randrange(0, 5000), data={"uid": 2 * n0 + 10 * i + j})
